@@ -1,5 +1,6 @@
 import ScVerif.C08.IncludeLemmas
 import ScVerif.C08.DrvLemmas
+import ScVerif.C09.Pipeline
 /-!
 # C08 — property theorems: include-filtered List/Pull behave as the filtered collection
 
@@ -174,6 +175,109 @@ theorem C08_pull_lossy_matches_list (p : Option (Pred ι μ)) (items : List (ι 
   · intro hd
     rw [fold_append, hseed.2.2, hl.2.2 hd, hms, hops.2.2, hlist]
 
+/-- The base a subscriber folds onto: the masked filtered collection at subscribe time.  It is what the
+(masked) seed folds to from the empty view — and it is the view an updates-only subscriber
+(`WithUpdatesOnly`: no seed) is assumed to hold already, e.g. from `List` with the same options. -/
+theorem C08_seed_masked_is_base (p : Option (Pred ι μ)) (proj : μ → μ) (items : List (ι × μ))
+    (hn : NodupKeys items) (order : List (ι × μ)) (hperm : order.Perm (itemSlice p items)) (t : Nat) :
+    fold ((seedFrom t order).map (maskChange proj)) View.empty = projView proj (filterView p (viewOf items)) ∧
+    projView proj (filterView p (viewOf items)) = projView proj (viewOf (itemSlice p items)) := by
+  have hs := C08_seed_is_filtered_list p items hn order hperm t
+  have hm := mask_hist proj View.empty _ hs.2.1
+  have he : projView proj (View.empty : View ι μ) = View.empty := by funext i; rfl
+  rw [he] at hm
+  exact ⟨by rw [hm.2, hs.2.2], by rw [hs.1]⟩
+
+/-- The full pipeline of `Collection.Pull` WITHOUT an equivalence, through the lossy machine and the
+forwarder with its event in hand (`ScVerif/C09/Pipeline.lean`), for every predicate, read-mask
+projection, view `s0` at subscribe time, well-formed stream of published events and EVERY interleaving
+of recv / take / deliver: what was sent to the subscriber (delivered, then in hand) is a well-formed
+history of the base `projView proj (filterView p s0)` and folds to the masked filtered collection of
+everything the forwarder has taken; at quiescence, of everything published.  With backpressure there
+is no machine: that is the interleaving in which every recv is followed at once by its take. -/
+theorem C08_pull_pipeline_exact (p : Option (Pred ι μ)) (proj : μ → μ) (s0 : View ι μ)
+    (ms : List (PMove (Change ι μ))) (hw : WFHist s0 (pinputs ms)) :
+    let c := prun (pullStep p proj none) PCfg.init ms
+    let base := projView proj (filterView p s0)
+    let sent := c.delivered ++ c.inHand.toList
+    WFHist base sent ∧
+    fold sent base = projView proj (filterView p (fold c.taken s0)) ∧
+    (c.inHand = none → c.st.pending = [] →
+      fold c.delivered base = projView proj (filterView p (fold (pinputs ms) s0))) := by
+  have h := PInv_run (T := pullStep p proj none) (s0 := s0) ms (PInv_init _ s0) (by simpa [PCfg.init] using hw)
+  have hrec : (prun (pullStep p proj none) (PCfg.init : PCfg ι μ) ms).received = pinputs ms := by
+    simp [prun_received, PCfg.init]
+  have htaken : WFHist s0 (prun (pullStep p proj none) (PCfg.init : PCfg ι μ) ms).taken :=
+    (WFHist_append.mp h.inv.wf).1
+  have hp := pullEvent_hist p proj s0 _ htaken
+  have hout := h.out
+  rw [filterMap_pullStep_none] at hout
+  refine ⟨by rw [hout]; exact hp.1, by rw [hout]; exact hp.2, ?_⟩
+  intro hh hpend
+  have hv := h.inv.view
+  simp only at hv
+  rw [hpend, List.append_nil] at hv
+  rw [hh, Option.toList_none, List.append_nil] at hout
+  rw [hout, hp.2, hv, hrec]
+
+/-- `C08_pull_full_pipeline`: include ▸ read mask ▸ equivalence ▸ lossy machine ▸ forwarder ▸ consumer.
+For every predicate, projection, view at subscribe time, well-formed stream of published events,
+EVERY interleaving of recv / take / deliver, and every equivalence `E` on optional messages that is
+reflexive and transitive (`E old new` = "suppress this change"): the view the subscriber folds from
+the base (`C08_seed_masked_is_base`: its seed, or what an updates-only subscriber already holds) is,
+ID BY ID, `E`-equivalent to the masked filtered collection — i.e. to the projection of
+`List(WithInclude p)` — of everything the forwarder has taken, and at quiescence of everything
+published.  "Modulo equivalence-suppressed changes" means exactly this: for each id the subscriber's
+value and the listed value are related by `E` (equal when the last change of the id was delivered). -/
+theorem C08_pull_full_pipeline (p : Option (Pred ι μ)) (proj : μ → μ)
+    (E : Option μ → Option μ → Bool) (hrefl : ∀ a, E a a = true)
+    (htrans : ∀ a b c, E a b = true → E b c = true → E a c = true)
+    (s0 : View ι μ) (ms : List (PMove (Change ι μ))) (hw : WFHist s0 (pinputs ms)) :
+    let c := prun (pullStep p proj (some E)) PCfg.init ms
+    let base := projView proj (filterView p s0)
+    let sent := c.delivered ++ c.inHand.toList
+    (∀ i, E (fold sent base i) (projView proj (filterView p (fold c.taken s0)) i) = true) ∧
+    (c.inHand = none → c.st.pending = [] →
+      ∀ i, E (fold c.delivered base i) (projView proj (filterView p (fold (pinputs ms) s0)) i) = true) := by
+  have h := PInv_run (T := pullStep p proj (some E)) (s0 := s0) ms (PInv_init _ s0)
+    (by simpa [PCfg.init] using hw)
+  have hrec : (prun (pullStep p proj (some E)) (PCfg.init : PCfg ι μ) ms).received = pinputs ms := by
+    simp [prun_received, PCfg.init]
+  have htaken : WFHist s0 (prun (pullStep p proj (some E)) (PCfg.init : PCfg ι μ) ms).taken :=
+    (WFHist_append.mp h.inv.wf).1
+  have hp := pullEvent_hist p proj s0 _ htaken
+  have hout := h.out
+  rw [filterMap_pullStep] at hout
+  have heq := equiv_hist E hrefl htrans _ _ (fun i => hrefl _) _ hp.1
+  rw [hp.2] at heq
+  refine ⟨by intro i; rw [hout]; exact heq i, ?_⟩
+  intro hh hpend i
+  have hv := h.inv.view
+  simp only at hv
+  rw [hpend, List.append_nil] at hv
+  rw [hh, Option.toList_none, List.append_nil] at hout
+  rw [hout, ← hrec, ← hv]
+  exact heq i
+
+/-- The same against the real objects: the published events are those of a write history on a
+collection, and the right-hand side is the (masked) view of `List(WithInclude p)` after the writes. -/
+theorem C08_pull_full_pipeline_list (p : Option (Pred ι μ)) (proj : μ → μ)
+    (E : Option μ → Option μ → Bool) (hrefl : ∀ a, E a a = true)
+    (htrans : ∀ a b c, E a b = true → E b c = true → E a c = true)
+    (items : List (ι × μ)) (hn : NodupKeys items) (t : Nat) (ops : List (Op ι μ))
+    (ms : List (PMove (Change ι μ))) (hms : pinputs ms = (runOps t items ops).2) :
+    let r := runOps t items ops
+    let c := prun (pullStep p proj (some E)) PCfg.init ms
+    let base := projView proj (viewOf (itemSlice p items))
+    c.inHand = none → c.st.pending = [] →
+      ∀ i, E (fold c.delivered base i) (projView proj (viewOf (itemSlice p r.1)) i) = true := by
+  intro r c base hh hpend i
+  have hops := runOps_spec t hn ops
+  have h := (C08_pull_full_pipeline p proj E hrefl htrans (viewOf items) ms
+    (by rw [hms]; exact hops.2.1)).2 hh hpend i
+  rw [hms, hops.2.2, ← viewOf_itemSlice p _ hops.1, ← viewOf_itemSlice p items hn] at h
+  exact h
+
 /-! ### non-vacuity -/
 
 section examples
@@ -202,6 +306,30 @@ example :
 predicate and contents, by the order the code (and the driver) uses: the listed items sorted by id -/
 example (p : Option (Pred String String)) (items : List (String × String)) :
     (sortById (itemSlice p items)).Perm (itemSlice p items) := sortById_perm _
+
+/-- an equivalence satisfying the hypotheses of `C08_pull_full_pipeline`: equal modulo 10 (and absent
+only equivalent to absent) — reflexive and transitive, not the identity -/
+private def eMod10 : Option Nat → Option Nat → Bool
+  | some a, some b => a % 10 == b % 10
+  | none, none => true
+  | _, _ => false
+
+example : ∀ a, eMod10 a a = true := by intro a; cases a <;> simp [eMod10]
+example : ∀ a b c, eMod10 a b = true → eMod10 b c = true → eMod10 a c = true := by
+  intro a b c; cases a <;> cases b <;> cases c <;> simp [eMod10] <;> omega
+
+/-- a run of the full pipeline in which the equivalence suppresses an update (10 → 20) that the
+subscriber therefore never sees, while the forwarder holds an event in hand -/
+example :
+    ((prun (pullStep (none : Option (Pred Nat Nat)) id (some eMod10)) PCfg.init
+        [.recv (mkChange 1 .add 0 none (some 10)), .take, .deliver,
+         .recv (mkChange 1 .update 1 (some 10) (some 20)), .take,
+         .recv (mkChange 1 .update 2 (some 20) (some 21)), .take]).delivered.map (·.new),
+     (prun (pullStep (none : Option (Pred Nat Nat)) id (some eMod10)) PCfg.init
+        [.recv (mkChange 1 .add 0 none (some 10)), .take, .deliver,
+         .recv (mkChange 1 .update 1 (some 10) (some 20)), .take,
+         .recv (mkChange 1 .update 2 (some 20) (some 21)), .take]).inHand.map (·.new))
+      = ([some 10], some (some 21)) := by decide
 
 end examples
 
